@@ -120,6 +120,8 @@ def run(ctx: core.Ctx):
             ctx.fail("tinterpolate", inp, out.tolist(), band.tolist(), note="band must be the rounded period mean of the exact daily Whittaker curve (lambda = 1e-5, weight on marks)")
     ctx.count("exact (Rat) comparisons", len(qlines))
 
+    from .. import strided
+    strided.probe(ctx, "a non-contiguous view of an argument gives exactly the result of its contiguous copy (the kernel reads the cells it was given)", only=['tinterpolate'])
     # accessor
     for k in range(ctx.budget(3, 20)):
         nobs = rng.choice([6, 12, 36])
